@@ -289,7 +289,7 @@ def run(ch, render=False):
             g["sock"] = source
             socks.append(source)
         g["gen"] = defs[g["di"]].packet_generator(source, skip_header_bytes=g["k"], buffer_read_size_bytes=g["rs"], **g["opts"])
-        g["items"], g["warns"], g["state"] = [], [], "live"
+        g["items"], g["warns"], g["state"], g["objs"] = [], [], "live", []
 
     # ---- the schedule -------------------------------------------------------------------------------
     steps = 0
@@ -370,6 +370,7 @@ def run(ch, render=False):
                     try:
                         item = next(g["gen"])
                         g["items"].append(xf.canon_item(item))
+                        g["objs"].append(item)          # kept: what was yielded must still look the same at the end
                         w.ev(f"gen{gi}", "item", g["items"][-1][0])
                     except StopIteration:
                         g["state"] = "done"
@@ -479,6 +480,18 @@ def run(ch, render=False):
                         break
                 if out.violation is not None:
                     break
+    if out.violation is None:
+        # items already handed to the caller must not change when the generator (or any other) is advanced further
+        for gi, g in enumerate(gens):
+            for j, obj in enumerate(g["objs"]):
+                now = xf.canon_item(obj)
+                if now != g["items"][j]:
+                    out.fail("yielded_item_changed_later",
+                             f"{describe(gi)}: item {j} was {str(g['items'][j])[:250]} when it was yielded but is "
+                             f"{str(now)[:250]} after the generators were advanced further")
+                    break
+            if out.violation is not None:
+                break
     if out.violation is None:
         for i, d in enumerate(defs):
             after = (xf.fingerprint(d), serial(d))
